@@ -158,11 +158,22 @@ theorem int (s : String) : Sat S (M.int s) := by
   · exact throw _
   · exact pure _
 
-theorem ite {p : Prop} [Decidable p] {x y : M α} (hx : Sat S x) (hy : Sat S y) :
+theorem ite {p : Prop} [Decidable p] {x y : M α} (hx : p → Sat S x) (hy : ¬p → Sat S y) :
     Sat S (if p then x else y) := by
   by_cases hp : p <;> simp [hp, hx, hy]
 
 end Sat
+
+theorem Holds.of_sat {α} {S : StepRel} {x : M α} {c : Conn} {Q : Post α} (h : Sat S x)
+    (hq : ∀ r c' e, S.R c c' e → Q r c' e) : Holds x c Q := hq _ _ _ (h.out c)
+
+theorem Holds.any {α} {x : M α} {c : Conn} {Q : Post α} (hq : ∀ r c' e, Q r c' e) : Holds x c Q := hq _ _ _
+
+@[simp] theorem holds_getTag (m : Msg) (t : Nat) (c : Conn) (Q : Post String) :
+    Holds (M.liftE (m.get t)) c Q ↔
+      (∀ v, m.get? t = some v → Q (.ok v) c []) ∧ (m.get? t = none → Q (.error .tagNotFound) c []) := by
+  unfold Msg.get
+  cases h : m.get? t <;> simp [Holds, M.liftE]
 
 /-- structural proof of `Sat S x`: peels combinators, leaves the `modify` / `emit` side conditions and
 the black-box calls -/
@@ -180,5 +191,27 @@ macro "sat_step" : tactic =>
     | apply Sat.modify
     | apply Sat.emit
     | intro _)
+
+/-- use a specification of a black-box call; the result is split so that the continuation reduces -/
+theorem Holds.of_spec {α} {x : M α} {c : Conn} {S Q : Post α} (h : Holds x c S)
+    (hok : ∀ a c' e, S (.ok a) c' e → Q (.ok a) c' e)
+    (herr : ∀ ex c' e, S (.error ex) c' e → Q (.error ex) c' e) : Holds x c Q := by
+  unfold Holds at *
+  cases hr : (x c).res with
+  | ok a => rw [hr] at h; exact hok _ _ _ h
+  | error ex => rw [hr] at h; exact herr _ _ _ h
+
+theorem Holds.of_sat' {α} {S : StepRel} {x : M α} {c : Conn} {Q : Post α} (h : Sat S x)
+    (hok : ∀ a c' e, S.R c c' e → Q (.ok a) c' e)
+    (herr : ∀ ex c' e, S.R c c' e → Q (.error ex) c' e) : Holds x c Q :=
+  Holds.of_spec (S := fun _ c' e => S.R c c' e) (h.out c) hok herr
+
+theorem Holds.elim {α} {x : M α} {c : Conn} {Q : Post α} (h : Holds x c Q) :
+    Q (x c).res (x c).conn (x c).eff := h
+
+theorem Holds.intro {α} {x : M α} {c : Conn} {Q : Post α} (h : Q (x c).res (x c).conn (x c).eff) :
+    Holds x c Q := h
+
+attribute [irreducible] Holds
 
 end AsyncFix.Session
